@@ -33,6 +33,7 @@ func checkC10(c *Ctx, r *Report) {
 	checkCode39Constructors(c, r)
 	checkCode39CheckChar(c, r)
 	checkExtensionHistory(c, r)
+	checkExt5Parity(c, r)
 	checkCode128ReaderTotal(c, r) // the mod-103 test on scripted symbols: valid ones are read whatever their check value, off-by-one ones refused (also C06)
 	checkUPCDigitLoops(c, r)
 	r.Note("not decided: that every single substitution is caught (a property of the code's minimum distance over all symbols); zero-suppression inverse beyond the expansion table")
@@ -2287,5 +2288,40 @@ func checkChecksumFunctionsWhole(c *Ctx, r *Report) {
 	}
 	reportFold(r, c, "S-C93CHK", key, fd.Pos(), bad)
 	r.DecidedByKeys("S-C93W", "S-C93CHK", "the reader's check function folded on bodies up to 40 characters: both weights cycle and both positions are covered",
-		"code93CheckOneChecksum.transition", "code93CheckOneChecksum.compare", "oned.code93CheckChecksums")
+		"code93CheckOneChecksum.transition", "code93CheckOneChecksum.compare", "oned.code93CheckChecksums", "oned.code93CheckOneChecksum")
+}
+
+// S-EXT5PARITY: the parity pattern of a 5-digit add-on names its check value, and only the ten patterns of the standard do.
+func checkExt5Parity(c *Ctx, r *Report) {
+	r.Rule("S-EXT5PARITY", "UPCEANExtension5Support.determineCheckDigit folded for every parity pattern 0..63 (bit 4 = first digit, a set bit = number set G): the ten patterns of the GS1 table (two G and three L: 0x18 0x14 0x12 0x11 0x0C 0x06 0x03 0x0A 0x09 0x05 for the check values 0..9) give their check value, every other pattern - fewer or more than two G among them - is refused", 1)
+	fd, p := c.funcDeclOf("oned", "UPCEANExtension5Support.determineCheckDigit")
+	key := "oned.UPCEANExtension5Support.determineCheckDigit/whole"
+	if fd == nil {
+		r.AnchorLost("S-EXT5PARITY", key, "method not found")
+		return
+	}
+	r.Analysed(key)
+	ref := map[int64]int64{0x18: 0, 0x14: 1, 0x12: 2, 0x11: 3, 0x0C: 4, 0x06: 5, 0x03: 6, 0x0A: 7, 0x09: 8, 0x05: 9}
+	bad := ""
+	for pat := int64(0); pat < 64 && bad == ""; pat++ {
+		h := &rpf{unroll: 64}
+		h.callHook = errCtorHook
+		h.env = map[types.Object]*Val{}
+		if ro := recvObj(p, fd); ro != nil {
+			h.env[ro] = &Val{K: VStruct, Ptr: true, Fields: map[string]*Val{}}
+		}
+		res, err := c.rpfCall(fd, p, []*Val{vint(pat)}, h)
+		want, legal := ref[pat]
+		switch {
+		case err != nil:
+			bad = "?" + err.Error()
+		case len(res) != 2:
+			bad = "determineCheckDigit does not return (digit, error)"
+		case legal && (res[1].K != VNil || !res[0].isInt() || res[0].I != want):
+			bad = fmt.Sprintf("pattern %#02x is the standard's pattern of check value %d; got (%s, %s)", pat, want, res[0], res[1])
+		case !legal && res[1].K == VNil:
+			bad = fmt.Sprintf("pattern %#02x is no pattern of the standard and is accepted as check value %s", pat, res[0])
+		}
+	}
+	reportFold(r, c, "S-EXT5PARITY", key, fd.Pos(), bad)
 }
